@@ -686,4 +686,130 @@ theorem run_total (max : Option Nat) : ∀ (fuel : Nat) (buf : Bytes) (mr eof : 
           simp only [List.length_append] at h2
           omega
 
+/-! ### hostile input: what the items returned can be -/
+
+def cost (ps : List Bytes) : Nat := (ps.map (fun p => p.length + 3)).sum
+
+theorem cost_append (a b : List Bytes) : cost (a ++ b) = cost a + cost b := by
+  simp [cost, List.map_append, List.sum_append]
+
+/-- The items returned never cost more than the bytes that were available: every item consumes its length
+    plus at least three framing bytes of the buffer, and the buffer only grows by what the stream delivers. -/
+theorem run_items_bound (max : Option Nat) : ∀ (fuel : Nat) (buf : Bytes) (mr eof : Bool) (stream : List Bytes)
+    (acc : List Bytes) (k : Nat),
+    cost (nsBufRun max fuel ⟨buf, mr, eof⟩ stream acc k).items ≤ cost acc.reverse + buf.length + stream.flatten.length := by
+  intro fuel
+  induction fuel with
+  | zero => intro buf mr eof stream acc k; simp [nsBufRun]; omega
+  | succ f ih =>
+    have key : ∀ (buf : Bytes) (stream : List Bytes) (acc : List Bytes) (k : Nat),
+        cost (nsBufRun max (f + 1) ⟨buf, false, false⟩ stream acc k).items ≤ cost acc.reverse + buf.length + stream.flatten.length := by
+      intro buf stream acc k
+      simp only [nsBufRun, call_parse max buf stream]
+      cases hp : nsParseBuf max buf with
+      | need => simp only; exact ih buf true false stream acc (k + 1)
+      | error e => simp; omega
+      | item p n =>
+        simp only
+        have hb := nsParseBuf_item_bounds max buf p n hp
+        have := ih (buf.drop n) false false stream (p :: acc) (k + 1)
+        simp only [List.reverse_cons, cost_append, List.length_drop] at this
+        have hc : cost [p] = p.length + 3 := by simp [cost]
+        omega
+    intro buf mr eof stream acc k
+    cases eof with
+    | true => simp [nsBufRun, call_eof_flag max buf mr stream]; omega
+    | false =>
+      cases mr with
+      | false => exact key buf stream acc k
+      | true =>
+        cases stream with
+        | nil => simp [nsBufRun, call_eof_stream max buf]
+        | cons c cs =>
+          rw [run_fill max f buf c cs acc k]
+          have := key (buf ++ c) cs acc k
+          rw [flatten_cons_length]
+          simp only [List.length_append] at this
+          omega
+
+theorem findColon_found_split : ∀ (buf : Bytes) (i hl : Nat), findColon i buf = .found hl →
+    ∃ pre post, buf = pre ++ colon :: post ∧ i + pre.length = hl ∧ colon ∉ pre := by
+  intro buf
+  induction buf with
+  | nil => intro i hl h; simp [findColon] at h
+  | cons b bs ih =>
+    intro i hl h
+    simp only [findColon] at h
+    by_cases hc : (b == colon) = true
+    · simp only [hc, if_true] at h
+      by_cases h0 : (i == 0) = true
+      · simp [h0] at h
+      · simp only [h0, Bool.false_eq_true, if_false, ColonResult.found.injEq] at h
+        have hb : b = colon := by simpa using hc
+        exact ⟨[], bs, by simp [hb], by simpa using h, by simp⟩
+    · simp only [hc, Bool.false_eq_true, if_false] at h
+      by_cases h16 : i > 16
+      · simp [h16] at h
+      · simp only [h16, if_false] at h
+        obtain ⟨pre, post, he, hl', hn⟩ := ih (i + 1) hl h
+        refine ⟨b :: pre, post, by simp [he], by simp; omega, ?_⟩
+        intro hm
+        rcases List.mem_cons.mp hm with hm | hm
+        · have : (b == colon) = true := by simp [hm]
+          exact hc this
+        · exact hn hm
+
+/-- Whatever the buffered parser returns as an item is framed in the buffer: a non-empty header without ':',
+    then ':', the item, ','; the item's length is the number the header's leading digits denote, and it is
+    within the limit. -/
+theorem nsParseBuf_item_shape (max : Option Nat) (buf p : Bytes) (n : Nat)
+    (h : nsParseBuf max buf = .item p n) :
+    ∃ pre rest, buf = pre ++ colon :: (p ++ comma :: rest) ∧ n = pre.length + 1 + p.length + 1 ∧ pre ≠ [] ∧
+      colon ∉ pre ∧ p.length = digitsVal 0 (pre.takeWhile isDigit) ∧ bufLimitExceeded max p.length = false := by
+  unfold nsParseBuf at h
+  cases hfc : findColon 0 buf with
+  | error e => simp [hfc] at h
+  | notFound => simp [hfc] at h
+  | found hl =>
+    have hl1 := (findColon_found buf 0 hl hfc).1
+    obtain ⟨pre, post, hbuf, hpl, hnc⟩ := findColon_found_split buf 0 hl hfc
+    simp only [Nat.zero_add] at hpl
+    simp only [hfc] at h
+    have htake : List.take hl buf = pre := by rw [hbuf, ← hpl]; simp
+    rw [htake] at h
+    by_cases hz : bufLeadingZero buf = true
+    · simp [hz] at h
+    · simp only [hz, Bool.false_eq_true, if_false] at h
+      by_cases h9 : (List.takeWhile isDigit pre).length > 9
+      · simp [h9] at h
+      · simp only [h9, if_false] at h
+        by_cases hm : bufLimitExceeded max (digitsVal 0 (List.takeWhile isDigit pre)) = true
+        · simp [hm] at h
+        · simp only [hm, Bool.false_eq_true, if_false] at h
+          by_cases hsz : buf.length < hl + 1 + (digitsVal 0 (List.takeWhile isDigit pre) + 1)
+          · simp [hsz] at h
+          · simp only [hsz, if_false] at h
+            have hd1 : List.drop (hl + 1) buf = post := by
+              rw [hbuf, ← hpl, List.drop_append]; simp [List.drop_eq_nil_of_le]
+            have hd2 : List.drop (hl + 1 + digitsVal 0 (List.takeWhile isDigit pre)) buf =
+                post.drop (digitsVal 0 (List.takeWhile isDigit pre)) := by
+              rw [← hd1, List.drop_drop]
+            rw [hd1, hd2] at h
+            have hlen : buf.length = hl + 1 + post.length := by rw [hbuf, ← hpl]; simp; omega
+            cases hdp : post.drop (digitsVal 0 (List.takeWhile isDigit pre)) with
+            | nil => simp [hdp] at h
+            | cons t rest =>
+              simp only [hdp] at h
+              by_cases htc : (t != comma) = true
+              · simp [htc] at h
+              · simp only [htc, Bool.false_eq_true, if_false, ParseResult.item.injEq] at h
+                obtain ⟨hp, hn⟩ := h
+                have ht : t = comma := by simpa using htc
+                have hpl2 : p.length = digitsVal 0 (List.takeWhile isDigit pre) := by
+                  rw [← hp]; simp; omega
+                have hpost : post = p ++ comma :: rest := by
+                  rw [← List.take_append_drop (digitsVal 0 (List.takeWhile isDigit pre)) post, hdp, hp, ht]
+                refine ⟨pre, rest, by rw [hbuf, hpost], by omega, ?_, hnc, hpl2, by rw [hpl2]; simpa using hm⟩
+                intro he; rw [he] at hpl; simp at hpl; omega
+
 end Icinga.C20
